@@ -10,7 +10,7 @@ SPEC = {
     "codes": {1: "model_eq_impl (C03 allocate)", 2: "spec_okb (C03: healthy, no duplicates, min<=healthy<=max, preference)"},
     "trusted": ["harness/root/rig_test.go: monitor fake = real metrics.Store + PeersetFilter (as pubsubmon.LatestMetrics)",
                 "sort.Sort on distinct keys is a sort (Go stdlib)"],
-    "level_text": "Theorems (Props/C03.v, 19, all closed) over the Gallina transcription of allocate/obtainAllocations/SortNumeric for every input, time and map-iteration order; the transcription is compared with the real (*Cluster).allocate on generated inputs at every run and the implementation's own output is checked against the boolean form of the property (spec_okb), which is proved sound (alloc_monitor_sound / alloc_monitor_err_sound: an accepted answer satisfies every Prop-level clause, alloc_spec) and complete for the model (alloc_model_passes_monitor: the model's answer is accepted on every admissible input); frame theorems (alloc_ignores_discarded, alloc_ignores_excluded, alloc_frame): metrics of peers that are invalid, expired or excluded are dead input, removing or adding any number of them never changes the decision",
+    "level_text": "Theorems (Props/C03.v, 21, all closed) over the Gallina transcription of allocate/obtainAllocations/SortNumeric for every input, time and map-iteration order; the transcription is compared with the real (*Cluster).allocate on generated inputs at every run and the implementation's own output is checked against the boolean form of the property (spec_okb), which is proved sound (alloc_monitor_sound / alloc_monitor_err_sound: an accepted answer satisfies every Prop-level clause, alloc_spec) and complete for the model (alloc_model_passes_monitor: the model's answer is accepted on every admissible input); frame theorems (alloc_ignores_discarded, alloc_ignores_excluded, alloc_frame): metrics of peers that are invalid, expired or excluded are dead input, removing or adding any number of them never changes the decision; order theorems (alloc_order_outcome, alloc_order_same_peers): the iteration order of the Go map of holders cannot change success/error or the number of peers returned, nor the set of peers unless healthy holders exceed max",
     "level_note": "model tied to code by differential testing (generator-bounded); one metric per peer assumed (proved in C09); sort.Sort trusted to sort",
     "assumptions": ["one latest metric per peer (C09 latest_one_per_peer)", "metrics do not expire between LatestMetrics and SortNumeric"],
 }
